@@ -72,6 +72,44 @@ def area2(pts):
     return s
 
 
+def covered_area2(pts):
+    """twice the area of the set of points with non-zero winding number about the closed integer polygon pts (exact): unlike the shoelace
+    sum it counts a lobe traversed against the orientation of the rest as covered.  Scan-line over the slabs between consecutive vertex
+    ordinates; the polygon may touch itself but its edges must not cross inside a slab."""
+    from fractions import Fraction
+    n = len(pts)
+    if n < 3:
+        return 0
+    ys = sorted(set(y for _x, y in pts))
+    edges = []
+    for i in range(n):
+        (x0, y0), (x1, y1) = pts[i], pts[(i + 1) % n]
+        if y0 == y1:
+            continue
+        if y0 < y1:
+            edges.append((x0, y0, x1, y1, 1))
+        else:
+            edges.append((x1, y1, x0, y0, -1))
+    total = Fraction(0)
+    for ya, yb in zip(ys, ys[1:]):
+        act = []
+        for x0, y0, x1, y1, d in edges:
+            if y0 <= ya and y1 >= yb:
+                dx = Fraction(x1 - x0, y1 - y0)
+                xa = x0 + dx * (ya - y0)
+                xb = x0 + dx * (yb - y0)
+                act.append((xa + xb, xa, xb, d))
+        act.sort()
+        w = 0
+        prev = None
+        for _m, xa, xb, d in act:
+            if w != 0:
+                total += ((xa - prev[0]) + (xb - prev[1])) * (yb - ya)
+            w += d
+            prev = (xa, xb)
+    return total
+
+
 def perimeter(pts):
     n = len(pts)
     return sum(math.hypot(pts[i + 1 - n][0] - pts[i][0], pts[i + 1 - n][1] - pts[i][1]) for i in range(n))
